@@ -401,6 +401,23 @@ class Normaliser:
                     self.note("N8-unreachable_unchecked")
                     i = j + 1
                     continue
+                # N8: unsafe { RECV.get_unchecked(I) } -> (&RECV[I]) ; get_unchecked_mut -> (&mut RECV[I])
+                body = toks[i + 2:j]
+                k = None
+                for q in range(len(body) - 1):
+                    if body[q].text in ("get_unchecked", "get_unchecked_mut") and q >= 2 and body[q - 1].text == "." and body[q + 1].text == "(":
+                        k = q
+                if k is not None and match_close(body, k + 1) == len(body) - 1:
+                    recv = body[:k - 1]
+                    if all(x.kind == "id" or x.text in (".", "::") for x in recv):
+                        args = body[k + 2:len(body) - 1]
+                        mut = body[k].text == "get_unchecked_mut"
+                        new = mk("( & mut" if mut else "( &") + recv + mk("[") + args + mk("] )")
+                        new[0].ws = t.ws
+                        out += new
+                        self.note("N8-get_unchecked")
+                        i = j + 1
+                        continue
                 raise NormError("unsupported unsafe block: " + inner[:60])
             out.append(t)
             i += 1
